@@ -1126,3 +1126,13 @@ where SD: Scheduler<crate::scheduler::OnceTask<(), NormalReturn<()>>> {
   fn complete(self) {}
   fn is_finished(&self) -> bool { false }
 }
+
+// ---------------------------------------------------------------- C03.S12
+/// swallows the completion when downstream reports finished
+pub struct QuietOnFinished<O> { observer: O }
+impl<Item, Err, O: Observer<Item, Err>> Observer<Item, Err> for QuietOnFinished<O> {
+  fn next(&mut self, value: Item) { self.observer.next(value) }
+  fn error(self, err: Err) { self.observer.error(err) }
+  fn complete(self) { if self.observer.is_finished() { return; } self.observer.complete() }
+  fn is_finished(&self) -> bool { self.observer.is_finished() }
+}
